@@ -196,12 +196,23 @@ def make_inputs(assignment: str, sizes: dict[str, int], rng: random.Random) -> d
     with two index lists (e.g. B(i,j)*B(j,i)) only gets entries if its occurrences agree on dims."""
     a = parsed(assignment)
     out = {}
-    for name, occs in a.expression.variables().items():
+    items = list(a.expression.variables().items())
+    # one run in four: "staggered" supports -- input number t (in order of appearance) stores exactly
+    # the cells whose linear index is congruent to (n-1-t) mod n, so the LAST operand holds the
+    # smallest coordinates and no two operands share a cell (merge order, tail loops, empty matches)
+    stagger = len(items) >= 2 and rng.random() < 0.25
+    for t, (name, occs) in enumerate(items):
         dims = [sizes[i] for i in occs[0].indexes]
         ok = all([sizes[i] for i in o.indexes] == dims for o in occs)
         if not ok:
             return {}
-        out[name] = {"dims": dims, "entries": random_entries(rng, dims, rng.choice(PATTERNS))}
+        if stagger and dims:
+            n = len(items)
+            cells = list(itertools.product(*[range(d) for d in dims]))
+            ent = {c: float(1 + (k % 5)) for k, c in enumerate(cells) if k % n == (n - 1 - t) % n}
+            out[name] = {"dims": dims, "entries": ent}
+        else:
+            out[name] = {"dims": dims, "entries": random_entries(rng, dims, rng.choice(PATTERNS))}
     return out
 
 
